@@ -103,15 +103,25 @@ func (m mpInput) spec() irgen.SchemaSpec {
 		{Name: "L", T: irgen.Array(irgen.S("string"))},
 		{Name: "LS", T: irgen.Array(mpRef(q, "S"))},
 		{Name: "M", T: irgen.Map(irgen.S("int64"))},
-		{Name: "AS", T: mpRef(q, "S")},   // alias of a struct of the same package
-		{Name: "AE", T: mpRef("r", "E")}, // alias of an enum of another package
+	}
+	uses := m.rootTerm().String()
+	if strings.Contains(uses, q+".AS") { // alias of a struct of the same package
+		qObjs = append(qObjs, irgen.ObjSpec{Name: "AS", T: mpRef(q, "S")})
+	}
+	if strings.Contains(uses, q+".AE") { // alias of an enum of another package
+		qObjs = append(qObjs, irgen.ObjSpec{Name: "AE", T: mpRef("r", "E")})
 	}
 	pObjs := []irgen.ObjSpec{{Name: "Root", T: m.rootTerm()}}
 	if m.local {
 		pObjs = append(pObjs, irgen.ObjSpec{Name: "D", T: irgen.Enum("str")})
 	}
 	// aliases declared in p: of a struct of q, and of that alias (a chain)
-	pObjs = append(pObjs, irgen.ObjSpec{Name: "A1", T: mpRef(q, "S")}, irgen.ObjSpec{Name: "A2", T: mpRef("p", "A1")})
+	if strings.Contains(uses, "p.A1") || strings.Contains(uses, "p.A2") {
+		pObjs = append(pObjs, irgen.ObjSpec{Name: "A1", T: mpRef(q, "S")})
+	}
+	if strings.Contains(uses, "p.A2") {
+		pObjs = append(pObjs, irgen.ObjSpec{Name: "A2", T: mpRef("p", "A1")})
+	}
 	w := irgen.ObjSpec{Name: "W", T: irgen.Struct1("u", true, irgen.Disj(irgen.S("string"), irgen.S("int64")))}
 	if strings.Contains(m.unions, "r") {
 		rObjs = append(rObjs, w)
@@ -227,6 +237,13 @@ func (m mpInput) cueInput() (*Input, bool) {
 	if err != nil {
 		return nil, false
 	}
+	uses := m.rootTerm().String()
+	opt := func(ref, line string) string {
+		if strings.Contains(uses, ref) {
+			return line
+		}
+		return ""
+	}
 	w := func(pkg string) string {
 		if strings.Contains(m.unions, pkg) {
 			return "W: {u: string | int64}\n"
@@ -237,11 +254,21 @@ func (m mpInput) cueInput() (*Input, bool) {
 		"cue.mod/module.cue": "module: \"example.com\"\nlanguage: version: \"v0.9.0\"\n",
 		"r/schema.cue":       "package r\n\nE: \"a\" | \"b\"\nK: \"k\"\nA: string\n" + w("r"),
 		"q/schema.cue": "package q\n\nimport \"example.com/r\"\n\n" +
-			"S: {kind: \"s\", x?: string, e: r.E & (*\"b\" | _)}\nT: {kind: \"t\", y?: int64}\nL: [...string]\nLS: [...S]\nM: {[string]: int64}\nAS: S\nAE: r.E\n" + w("q"),
+			"S: {kind: \"s\", x?: string, e: r.E & (*\"b\" | _)}\nT: {kind: \"t\", y?: int64}\nL: [...string]\nLS: [...S]\nM: {[string]: int64}\n" + opt("q.AS", "AS: S\n") + opt("q.AE", "AE: r.E\n") + w("q"),
 	}
-	p := "package p\n\nimport (\n\t\"example.com/q\"\n\t\"example.com/r\"\n)\n\n"
-	// keep both imports used whatever the field refers to
-	p += "A1: q.S\nA2: A1\nR0: r.A\n"
+	body := opt("p.A1", "A1: q.S\n")
+	if body == "" {
+		body = opt("p.A2", "A1: q.S\n")
+	}
+	body += opt("p.A2", "A2: A1\n")
+	p := "package p\n\n"
+	// CUE refuses unused imports
+	for _, pk := range []string{"q", "r"} {
+		if strings.Contains(root, pk+".") || strings.Contains(body, pk+".") {
+			p += "import \"example.com/" + pk + "\"\n"
+		}
+	}
+	p += "\n" + body
 	if m.local {
 		p += "D: \"a\" | \"b\"\n"
 	}
@@ -262,7 +289,6 @@ func (m mpInput) cueInput() (*Input, bool) {
 			in.Names = append(in.Names, o.Name)
 		}
 	}
-	in.Names = append(in.Names, "R0")
 	return in, true
 }
 
